@@ -237,11 +237,64 @@ fn shrinks(d: &Doc) -> Vec<Doc> {
     out
 }
 
+// ---------------------------------------------------------------------------------------------------------
+// C14: lossy relations assembled from valid components print to text that reads back equal
+mod rel {
+    use super::{Fail, Rng};
+    use debian_control::lossy::{Relation, Relations};
+    use debian_control::relations::{BuildProfile, VersionConstraint};
+    use std::str::FromStr;
+    const NAMES: &[&str] = &["foo", "lib-x1.2+y", "a", "0ad", "g++"];
+    const QUALS: &[&str] = &["any", "native", "amd64"];
+    const VERSIONS: &[&str] = &["1", "1.0-1", "2:1.0~rc1-3", "0.9.8+dfsg-1.1", "1:0"];
+    const ARCHS: &[&str] = &["amd64", "!i386", "linux-any", "!hurd-any", "any-arm64"];
+    const PROFS: &[&str] = &["nocheck", "cross", "stage1", "pkg.foo.bar"];
+    fn gen(r: &mut Rng) -> Relation {
+        let cons = [VersionConstraint::GreaterThanEqual, VersionConstraint::LessThanEqual, VersionConstraint::Equal, VersionConstraint::GreaterThan, VersionConstraint::LessThan];
+        let ng = [0, 0, 1, 2][r.below(4)];
+        Relation {
+            name: r.pick(NAMES).to_string(),
+            archqual: if r.below(3) == 0 { Some(r.pick(QUALS).to_string()) } else { None },
+            version: if r.below(2) == 0 { Some((cons[r.below(5)].clone(), r.pick(VERSIONS).parse().unwrap())) } else { None },
+            architectures: if r.below(3) == 0 { let n = r.below(4); Some((0..n).map(|_| r.pick(ARCHS).to_string()).collect()) } else { None },
+            profiles: (0..ng).map(|_| { let n = 1 + r.below(3); (0..n).map(|_| if r.below(2) == 0 { BuildProfile::Enabled(r.pick(PROFS).to_string()) } else { BuildProfile::Disabled(r.pick(PROFS).to_string()) }).collect() }).collect(),
+        }
+    }
+    pub fn run() -> Result<usize, Fail> {
+        let mut r = Rng(0xD1B54A32D192ED03);
+        let mut n = 0;
+        for _ in 0..6000 {
+            let rel = gen(&mut r);
+            let t = rel.to_string();
+            n += 1;
+            match Relation::from_str(&t) {
+                Ok(b) if b == rel => {}
+                other => return Err(Fail { prop: "C14".into(), input: t.clone(), what: "printed lossy Relation does not read back equal".into(), expected: format!("{:?}", rel), got: format!("{:?}", other) }),
+            }
+            // a field of 1..3 entries of 1..2 alternatives
+            let ne = 1 + r.below(3);
+            let rels = Relations((0..ne).map(|_| { let na = 1 + r.below(2); (0..na).map(|_| gen(&mut r)).collect() }).collect());
+            let t = rels.to_string();
+            match Relations::from_str(&t) {
+                Ok(b) if b == rels => {}
+                other => return Err(Fail { prop: "C14".into(), input: t.clone(), what: "printed lossy Relations does not read back equal".into(), expected: format!("{:?}", rels), got: format!("{:?}", other) }),
+            }
+        }
+        Ok(n)
+    }
+}
+
 const N_DOCS: usize = 4000;
 fn main() {
     let args: Vec<String> = std::env::args().collect();
     if args.len() < 2 { eprintln!("usage: vwit <C03|C04|C06|C08>"); std::process::exit(3); }
     let prop = args[1].as_str();
+    if prop == "C14" {
+        match rel::run() {
+            Ok(n) => { eprintln!("vwit C14: no failing input among {} relations and as many relation fields", n); return; }
+            Err(f) => f.print_and_exit(),
+        }
+    }
     let mut r = Rng(0x9E3779B97F4A7C15);
     // all single-field documents over the pools
     let mut docs: Vec<Doc> = Vec::new();
